@@ -113,7 +113,7 @@ def expect(ln, snap):
 
 def run(rep, work, rng, tier):
     common.proof_part(rep, 'C11')
-    n = 120 if tier == 'quick' else 1500
+    n = 120 if tier == 'quick' else 6000
     base = [build_case(rng, 'b%d' % i) for i in range(n)]
     # pass 1: real shapes from the C++ snapshots
     from lib import build
